@@ -2,6 +2,7 @@
 
 from __future__ import annotations
 
+from collections import defaultdict
 from dataclasses import dataclass
 from typing import TYPE_CHECKING
 from typing import DefaultDict
@@ -55,22 +56,31 @@ class ExtendsNode(Node):
 
     def render_to_output(self, context: RenderContext, buffer: TextIO) -> int:
         """Render the node to the output buffer."""
-        base_template = _build_block_stacks(context, context.template, "extends")
-
-        base_template.render_with_context(context, buffer)
-        context.tag_namespace["extends"].clear()
+        # Every inheritance chain gets block stacks of its own. A chain entered
+        # from inside another one (an included template that extends) must not
+        # push on to, resolve against, or clear the enclosing chain's stacks.
+        enclosing_stacks = context.tag_namespace["extends"]
+        context.tag_namespace["extends"] = defaultdict(list)
+        try:
+            base_template = _build_block_stacks(context, context.template, "extends")
+            base_template.render_with_context(context, buffer)
+        finally:
+            context.tag_namespace["extends"] = enclosing_stacks
         raise StopRender
 
     async def render_to_output_async(
         self, context: RenderContext, buffer: TextIO
     ) -> int:
         """Render the node to the output buffer."""
-        base_template = await _build_block_stacks_async(
-            context, context.template, "extends"
-        )
-
-        await base_template.render_with_context_async(context, buffer)
-        context.tag_namespace["extends"].clear()
+        enclosing_stacks = context.tag_namespace["extends"]
+        context.tag_namespace["extends"] = defaultdict(list)
+        try:
+            base_template = await _build_block_stacks_async(
+                context, context.template, "extends"
+            )
+            await base_template.render_with_context_async(context, buffer)
+        finally:
+            context.tag_namespace["extends"] = enclosing_stacks
         raise StopRender
 
     def children(
